@@ -787,6 +787,8 @@ fn main() {
             let v = rustlite::translate_multi(
                 &file,
                 &rel,
+                "",
+                "wasm32::",
                 "WasmHash",
                 "V2x64U",
                 &["v128"],
@@ -808,6 +810,36 @@ fn main() {
                 sub,
             );
             write_if_changed(&format!("{}/SrcWasmFull.v", out_dir), &v);
+        }
+        if rel == "src/aarch64.rs" {
+            let packet_file = std::fs::read_to_string(format!("{}/src/internal.rs", repo)).ok().and_then(|t| syn::parse_file(&t).ok());
+            let sub = packet_file.as_ref().map(|pf| rustlite::SubObj::new("buffer", pf, "HashPacket"));
+            let v = rustlite::translate_multi(
+                &file,
+                &rel,
+                "aarch64::",
+                "neon::",
+                "NeonHash",
+                "V2x64U",
+                &["uint64x2_t", "uint32x4_t", "int32x4_t", "uint16x8_t", "uint8x16_t", "uint32x2_t"],
+                &["force_new", "zipper_merge", "update", "permute_and_update", "finalize64", "finalize128", "finalize256", "modular_reduction",
+                  "load_multiple_of_four", "remainder", "update_remainder", "rotate_32_by", "data_to_lanes", "append", "checkpoint", "force_from_checkpoint"],
+                &["Debug", "fmt"],
+                &["unordered_load3"],
+                packet_file.as_ref(),
+                Some((
+                    rustlite::Foreign {
+                        ty: "PortableHash".into(),
+                        arrays: vec![("v0".into(), 4), ("v1".into(), 4), ("mul0".into(), 4), ("mul1".into(), 4)],
+                        sub: ("buffer".into(), vec![("buf".into(), 32), ("buf_index".into(), 0)]),
+                    },
+                    &[("checkpoint", &[], Some(164)), ("from_checkpoint", &[("data", 164)], None)],
+                )),
+                &[("PACKET_SIZE", 32)],
+                "nsrc",
+                sub,
+            );
+            write_if_changed(&format!("{}/SrcNeonFull.v", out_dir), &v);
         }
         if rel == "src/internal.rs" {
             let v = rustlite::translate(&file, &rel, "HashPacket", &["len", "is_empty", "as_slice", "inner", "fill", "set_to"], &["unordered_load3"], &[], &[], "pkt", None);
